@@ -6,7 +6,7 @@ source or header under /repo forces a recompile and nothing stale can be linked,
 unchanged tree reuses objects.  Used as a library by vcheck.py and as the setup command
 (`python3 bin/vbuild.py --setup`), which precompiles the /repo-independent harness objects.
 """
-import hashlib, os, subprocess, sys, shutil, re, json, tempfile
+import hashlib, os, subprocess, sys, shutil, re, json, tempfile, time
 from concurrent.futures import ThreadPoolExecutor
 
 VERIF = os.path.dirname(os.path.dirname(os.path.abspath(__file__)))
@@ -206,11 +206,16 @@ def link(cfgname, objs, hobjs, outname=None, extra_libs=()):
     if r.returncode != 0:
         raise RuntimeError("link failed (%s):\n%s" % (cfgname, r.stderr.decode()[-6000:]))
     os.replace(out + ".tmp%d" % os.getpid(), out)
-    # remove older binaries of the same configuration (disk hygiene)
+    # disk hygiene: remove binaries of exactly this configuration that are old enough not to be in use by a concurrently
+    # running check (names are <tool>-<config>-<16 hex>; "small" must not match "small-nosse")
+    pat = re.compile(r"^%s-%s-[0-9a-f]{16}$" % (re.escape(outname or "vf"), re.escape(cfgname)))
+    now = time.time()
     for f in os.listdir(BIN):
-        if f.startswith("%s-%s-" % (outname or "vf", cfgname)) and os.path.join(BIN, f) != out:
+        fp = os.path.join(BIN, f)
+        if pat.match(f) and fp != out:
             try:
-                os.remove(os.path.join(BIN, f))
+                if now - os.path.getmtime(fp) > 6 * 3600:
+                    os.remove(fp)
             except OSError:
                 pass
     return out
@@ -258,8 +263,9 @@ def build_fuzzer(name="fz_io", cfgname="small-fuzz"):
         if r.returncode != 0:
             raise RuntimeError("fuzzer link failed:\n" + r.stderr.decode()[-4000:])
         for f in os.listdir(BIN):
-            if f.startswith("%s-%s-" % (name, cfgname)) and os.path.join(BIN, f) != out:
-                os.remove(os.path.join(BIN, f))
+            fp = os.path.join(BIN, f)
+            if re.match(r"^%s-%s-[0-9a-f]{16}$" % (re.escape(name), re.escape(cfgname)), f) and fp != out and time.time() - os.path.getmtime(fp) > 6 * 3600:
+                os.remove(fp)
     return out
 
 
